@@ -107,14 +107,23 @@ def main(tier):
     if r2.rc != 0 or "Error:" in r2.out:
         raise V.ToolError("MC_Macros failed:\n" + V.tail(r2.out, 40))
     rep.notes.append("MC_Macros: %d programs with macros/parameters and if-else branches: ParamsApart, CallsDenoteMacros, FreshRenameIsCaptureFree hold" % r2.distinct)
-    asts, masts = D.tlc_cases(r), D.tlc_cases(r2)
+    mi = os.path.join(SPEC, "MC_Imports.tla")
+    r3 = V.tlc(mi, cfg=os.path.join(SPEC, "MC_Imports.cfg"), workers=4, timeout=1200, tag="C15-mi")
+    rep.add_tlc(r3)
+    if r3.invariant_violated:
+        rep.violations.append({"why": "design level: MC_Imports invariant violated", "replay": {"tlc_output": V.tail(r3.out, 60)}, "id": "MC_Imports"})
+        return rep.finish()
+    if r3.rc != 0 or "Error:" in r3.out:
+        raise V.ToolError("MC_Imports failed:\n" + V.tail(r3.out, 40))
+    rep.notes.append("MC_Imports: %d instances of the import forms: AliasDenotesSymbol, FreshRenameIsCaptureFree hold" % r3.distinct)
+    asts, masts, iasts = D.tlc_cases(r), D.tlc_cases(r2), D.tlc_cases(r3)
     rnd = V.rng("C15")
     wd = V.fresh_dir("C15")
     rnd.shuffle(asts)
     rnd.shuffle(masts)
     if tier == "quick":
         asts, masts = asts[:50], masts[:40]
-    asts = asts + masts
+    asts = asts + masts + iasts
     with ThreadPoolExecutor(max_workers=6) as ex:
         projs = [p for p in ex.map(lambda i: D.project_from_ast(asts[i], mos, os.path.join(wd, "t%04d" % i), 1000 + i), range(len(asts))) if p["ok"]]
     gen, tries = D.make_projects(rnd, 70 if tier == "quick" else 600, mos, wd, "g")
